@@ -141,6 +141,26 @@ func runC05(rc *RunCtx, faulty bool) *simkit.Violation {
 	if pt.Err != nil {
 		return Viol(prop, "harness", "Publish", ba.ID, "%v", pt.Err)
 	}
+	if c05big && len(b) > 0 && t.Bool(1, 2) {
+		// files are deleted from the repository (every bundle of it) after the local copy was made: the target bundle's
+		// file lists are shortened in place, no longer densely packed
+		ps := b.paths()
+		del := []string{ps[0]}
+		if t.Bool(1, 2) {
+			del = append(del, ps[t.Choose(len(ps))])
+		}
+		dt, v := doOp(prop, w, setup, "delete-files", func() (interface{}, error) { return nil, core.DeleteEntriesFromRepo("r1", d.Stores(setup), del) })
+		if v != nil {
+			return v
+		}
+		if dt.Err != nil {
+			return Viol(prop, "harness", "DeleteEntriesFromRepo", "r1", "fault-free delete-files failed while building the history: %v", dt.Err)
+		}
+		for _, p := range del {
+			delete(b, p)
+		}
+		w.Probe("target-bundle-shortened-by-delete-files")
+	}
 	// model diff
 	type de struct{ typ, name string }
 	var want []de
